@@ -1,6 +1,145 @@
-/- Driver/C06 — stub until the property's model driver is written. -/
+/-
+Driver/C06 — runs Model/SaveProtocols over Spec/Fs on the request stream of harness/src/bin/c06.rs.
+
+  begin <routine> … jver=<v> jmax=<m>           -> ok          (directory := empty)
+  step <script> | <model parameters>            -> the trace the model produces, then dir := run dir trace
+  state <i> <k>                                 -> name:len:synced:fnv …  of `run before (cutAt trace i k)`
+  resume <i> <k> <asis|trunc|zeros>             -> name:len:fnv …        of the crash image; dir := image
+-/
 import Driver.Common
-open Drv
+import Cascette.Spec.Fs
+import Cascette.Model.SaveProtocols
+open Drv Cascette Cascette.Spec.Fs Cascette.Model.SaveProtocols
+
+namespace C06
+
+structure St where
+  routine : String := ""
+  dir : Dir String := fun _ => none
+  names : List String := []
+  before : Dir String := fun _ => none
+  trace : List (Op String) := []
+  jver : Nat := 1
+  jmax : Nat := 1023
+
+def fnv64 (b : Bytes) : UInt64 :=
+  b.foldl (fun h x => (h ^^^ x.toNat.toUInt64) * 0x100000001b3) 0xcbf29ce484222325
+
+def fnvHex (b : Bytes) : String := hexFixed 16 (fnv64 b).toNat
+
+def opNames : Op String → List String
+  | .create n | .openAppend n | .write n _ | .fsync n | .unlink n => [n]
+  | .rename a b => [a, b]
+
+/-- render one call against the state it runs in (`!` = the call fails and changes nothing). -/
+def opText (d : Dir String) : Op String → String
+  | .create n => s!"creat {n}"
+  | .openAppend n => s!"append {n}"
+  | .write n bs => s!"write {n} {bs.length} {fnvHex bs}"
+  | .fsync n => s!"fsync {n}"
+  | .rename a b => if (d a).isSome then s!"rename {a} {b}" else s!"rename! {a} {b}"
+  | .unlink n => if (d n).isSome then s!"unlink {n}" else s!"unlink! {n}"
+
+def traceText (d : Dir String) (t : List (Op String)) : String :=
+  if t.isEmpty then "-" else
+  let (_, out) := t.foldl (fun (acc : Dir String × List String) o => (step acc.1 o, opText acc.1 o :: acc.2)) (d, [])
+  ";".intercalate out.reverse
+
+def insertSorted (n : String) : List String → List String
+  | [] => [n]
+  | m :: r => if n < m then n :: m :: r else if n = m then m :: r else m :: insertSorted n r
+
+def listing (withSynced : Bool) (names : List String) (files : String → Option (Bytes × Nat)) : String :=
+  let rows := names.filterMap fun n =>
+    match files n with
+    | some (b, s) =>
+      some (if withSynced then s!"{n}:{b.length}:{min s b.length}:{fnvHex b}" else s!"{n}:{b.length}:{fnvHex b}")
+    | none => none
+  if rows.isEmpty then "-" else " ".intercalate rows
+
+def kv (toks : List String) (k : String) : Option String :=
+  toks.findSome? fun t => if t.startsWith (k ++ "=") then some ((t.drop (k.length + 1)).toString) else none
+
+def asciiOfHex (h : String) : Option String :=
+  (parseHexNat h).map fun l => String.ofList (l.map Char.ofNat)
+
+/-- the trace of one save, from the model parameters and the current directory. -/
+def modelTrace (st : St) (p : List String) : Option (List (Op String)) :=
+  match p with
+  | "idx" :: rest =>
+    let ver := ((kv rest "v").bind String.toNat?).getD 1
+    let buckets := rest.filterMap fun t =>
+      match t.splitOn "=" with
+      | [b, h] =>
+        if b == "v" then none else
+        match parseHexNat b, parseHex h with
+        | some [bn], some bytes =>
+          some ({ tmp := String.ofList (idxTmp bn ver), fin := String.ofList (idxName bn ver), bytes := bytes, outcomes := [] } : BucketSave String)
+        | _, _ => none
+      | _ => none
+    some (saveAll buckets)
+  | "res" :: rest =>
+    match (kv rest "name").bind asciiOfHex, kv rest "dirty", (kv rest "data").bind parseHex with
+    | some name, some dirty, some bytes =>
+      some (residencySave (dirty == "1") (String.ofList (withExtTmp name.toList)) name bytes)
+    | _, _, _ => none
+  | "lru" :: rest =>
+    match (kv rest "gen").bind String.toNat?, (kv rest "prev").bind String.toNat?, (kv rest "data").bind parseHex with
+    | some g, some pv, some bytes =>
+      some (lruCheckpoint (fun g => String.ofList (lruName g)) (fun g => String.ofList (lruTmp g)) g pv bytes)
+    | _, _, _ => none
+  | "dc" :: rest =>
+    match (kv rest "sub").bind String.toNat?, (kv rest "key").bind parseHexNat, (kv rest "data").bind parseHex with
+    | some sub, some keyBytes, some bytes =>
+      let key := keyBytes.map Char.ofNat
+      let dirs := subDirs sub (keyHash keyBytes)
+      some (diskCacheWrite (String.ofList (dirs ++ withExtTmp key)) (String.ofList (dirs ++ key)) bytes)
+    | _, _, _ => none
+  | "jrn" :: rest =>
+    match (kv rest "seg").bind String.toNat? with
+    | some seg =>
+      let name := "extract_bu"
+      some (journalRecord name (journalIsEmpty st.dir name) (BitVec.ofNat 8 st.jver) st.jmax seg)
+    | none => none
+  | _ => none
+
+def variantOf : String → Option Variant
+  | "asis" => some .asis
+  | "trunc" => some .trunc
+  | "zeros" => some .zeros
+  | _ => none
+
+def handle (st : St) (toks : List String) : St × String :=
+  match toks with
+  | "begin" :: routine :: rest =>
+    ({ routine := routine,
+       jver := ((kv rest "jver").bind String.toNat?).getD 1,
+       jmax := ((kv rest "jmax").bind String.toNat?).getD 1023 }, "ok")
+  | "step" :: rest =>
+    let params := (rest.dropWhile (· ≠ "|")).drop 1
+    match modelTrace st params with
+    | none => (st, "bad-op")
+    | some t =>
+      let names := (t.flatMap opNames).foldl (fun acc n => insertSorted n acc) st.names
+      let after := run st.dir t
+      -- the process has exited and the history goes on: everything it wrote is on disk
+      let settled : Dir String := fun n => (after n).map fun f => { f with synced := f.data.length }
+      ({ st with before := st.dir, trace := t, names := names, dir := settled }, traceText st.dir t)
+  | ["state", i, k] =>
+    match i.toNat?, k.toNat? with
+    | some i, some k =>
+      let d := run st.before (cutAt st.trace i k)
+      (st, listing true st.names fun n => (d n).map fun f => (f.data, f.synced))
+    | _, _ => (st, "bad-op")
+  | ["resume", i, k, v] =>
+    match i.toNat?, k.toNat?, variantOf v with
+    | some i, some k, some v =>
+      let img := dirImage v (run st.before (cutAt st.trace i k))
+      ({ st with dir := ofData img }, listing false st.names fun n => (img n).map fun b => (b, b.length))
+    | _, _, _ => (st, "bad-op")
+  | _ => (st, "bad-op")
+
+end C06
 
 def main : IO Unit := do
-  loopPure (← IO.getStdin) (← IO.getStdout) (fun _ => "bad-op")
+  loopState (← IO.getStdin) (← IO.getStdout) C06.handle {}
